@@ -246,6 +246,26 @@ ORACLES = {
 }
 
 
+def p2_rotation_lemma(scn, v, o):
+    """With phi = arctan(qy/qx): |q| cos(-phi) = |qx| and |q| sin(-phi) = -qy sign(qx)
+    (consequence of the angle axioms; proved first, then used by the cloud identities)."""
+    if not _ok(o) or o["weights"] is None:
+        return []
+    out = []
+    for i in range(len(v["qx"])):
+        qx, qy = v["qx"][i], v["qy"][i]
+        if RS.issym(qx, qy):
+            phi = symx.uf("atan", qy / qx)
+            c, s_ = symx.uf("cos", -phi), symx.uf("sin", -phi)
+        else:
+            phi = math.atan(qy / qx)
+            c, s_ = math.cos(-phi), math.sin(-phi)
+        r = g_sqrt(qx * qx + qy * qy)
+        out.append(Rel("eq", c * r, g_abs(qx), "|q| cos(phi_q) = |qx| (point %d)" % i))
+        out.append(Rel("eq", s_ * r, g_ite(qx > 0, -qy, qy), "|q| sin(-phi_q) = -qy sign(qx) (point %d)" % i))
+    return out
+
+
 class _CloudOf:
     """cloud obligation of one data point and one azimuth (data points are
     independent; small polynomial queries are decided much faster than their conjunction)."""
@@ -262,7 +282,8 @@ def oracles_for(scn):
         return [("zero-width-identity", c03.sm_zero)]
     if scn.kind == "pinhole2d":
         nphi = p2_constants(scn.cfg.get("accuracy", "low"))[1]
-        return [("cloud" if i == 0 else "cloud-point-%d" % i, _CloudOf(i, b))
+        return [("lemma:rotation", p2_rotation_lemma)] + \
+               [("cloud" if i == 0 else "cloud-point-%d" % i, _CloudOf(i, b))
                 for i in range(scn.cfg["n"]) for b in range(nphi)] + [("ring-weights-and-mean", p2_weights)]
     return list(ORACLES[scn.kind])
 
